@@ -149,10 +149,13 @@ pub(super) fn read_series<'a>(src: &mut &'a [u8], sample_count: usize) -> io::Re
     }
 
     let id = read_string_map_index(src)?;
-    let ty = read_type(src)?.expect("invalid type");
+    let ty = read_type(src)?
+        .ok_or_else(|| io::Error::new(io::ErrorKind::InvalidData, "invalid type"))?;
 
-    let len = size_of(ty) * sample_count;
-    let (buf, rest) = src.split_at(len);
+    let (buf, rest) = size_of(ty)
+        .checked_mul(sample_count)
+        .and_then(|len| src.split_at_checked(len))
+        .ok_or_else(|| io::Error::from(io::ErrorKind::UnexpectedEof))?;
 
     *src = rest;
 
@@ -814,6 +817,23 @@ mod tests {
         assert!(series.get(&header, 3).is_none());
 
         Ok(())
+    }
+
+    #[test]
+    fn test_read_series_with_invalid_data() {
+        // id = 0, type = <missing>
+        let mut src = &[0x11, 0x00, 0x00][..];
+        assert!(matches!(
+            read_series(&mut src, 1),
+            Err(e) if e.kind() == io::ErrorKind::InvalidData
+        ));
+
+        // id = 0, type = Int8(2), 3 samples, 4 bytes
+        let mut src = &[0x11, 0x00, 0x21, 0x05, 0x08, 0x0d, 0x15][..];
+        assert!(matches!(
+            read_series(&mut src, 3),
+            Err(e) if e.kind() == io::ErrorKind::UnexpectedEof
+        ));
     }
 
     #[test]
